@@ -77,22 +77,31 @@ def run(chk):
             rp = flow.simplify_term(T.operand(t["args"][2], bb, "t"))
             ok_rp = is_upvar_field(rp, req_i, *want_rp)
             chk.ob("R1 lookup arguments", "R1|%s|rp_id" % nm, ok_rp, where(co, bb), "rp_id argument = %s (expected request.%s)" % (flow.term_str(rp), ".".join(want_rp)))
-            # ids: request list, optionally through Option::filter(non-empty)
-            inner = ids
-            filt = None
-            if ids[0] == "call" and names.is_(ids[1], "Option::filter"):
-                inner = ids[2][0]
-                filt = ids[2][1]
-            ok_ids = is_upvar_field(inner, req_i, *want_ids)
-            wit = "ids argument = %s" % flow.term_str(ids)
-            if filt is not None:
-                cb, ret = closure_ret(p, filt[1]) if filt[0] == "closure" else (None, None)
-                okf = ret is not None and is_nonempty_pred(ret)
-                ok_ids = ok_ids and okf
-                wit += "; filter predicate = %s" % (flow.term_str(ret) if ret else "?")
+            # ids: the request list itself, or (normal form of filter / match / if) the list exactly when it is non-empty
+            idsn = N.inline(ids)
+            wit = "ids argument = %s" % flow.term_str(idsn)[:260]
+            is_list = lambda x: is_upvar_field(x, req_i, *want_ids)
+            filtered = False
+            if is_list(idsn):
+                ok_ids = True
+            else:
+                ok_ids = True
+                n_some = 0
+                for cs, v in normal.cases_deep(idsn):
+                    if v == normal.NONE:
+                        continue
+                    if not (isinstance(v, tuple) and v[:3] == ("agg", "core::option::Option", "Some") and flow.is_payload_of(dict(v[3])["0"], is_list)):
+                        ok_ids = False
+                        continue
+                    n_some += 1
+                    present = any(flow.asserts_ok(t, l, is_list) for t, l in cs)
+                    nonempty = any((flow.emptiness_test(t, l) or (None, None))[1] is False and flow.is_payload_of(flow.emptiness_test(t, l)[0], is_list) for t, l in cs)
+                    filtered = filtered or nonempty
+                    ok_ids = ok_ids and present and all(flow.asserts_ok(t, l, is_list) or ((flow.emptiness_test(t, l) or (None, None))[1] is False) for t, l in cs)
+                ok_ids = ok_ids and n_some >= 1
             if nm == "get_assertion":
-                # an empty allow list must mean "no list": the filter is required
-                ok_ids = ok_ids and filt is not None
+                # an empty allow list must mean "no list": the non-emptiness filter is required
+                ok_ids = ok_ids and filtered
             chk.ob("R1 lookup arguments", "R1|%s|ids" % nm, ok_ids, where(co, bb), wit)
 
     # ---------------- R2
